@@ -46,6 +46,14 @@ RUNTIME = [
     ("l | reduce((p, q) => u)", "undefined variable in reduce"),
     ("d | map((p, q) => d[q])", "missing key in map over a dict"),
     ("[l | sorted(v => u), 1][1]", "undefined variable in a sort key, result discarded"),
+    ("y = for", "reserved word as an operand"),
+    ("1 if def else 2", "reserved word in a condition"),
+    ("break", "reserved word as a statement"),
+    ("f(while)", "reserved word as an argument"),
+    ("l | map(vv => vv * 2)\nvv", "lambda parameter read after the call"),
+    ("l | map(ww => ww)\nww += 1", "lambda parameter in a compound assignment after the call"),
+    ("l | filter(qq => qq)\nqq(1)", "lambda parameter called after the call"),
+    ("f = pp => pp\nf(1)\n5 | pp", "lambda parameter piped into after the call"),
 ]
 MUST_FAIL = {"u", "u + 1", "u(1)", "1 | u", "x.u(2)", "u += 1", "u -= 1", "u *= 1", "u /= 1", "f = v => u\nf(1)", "e.pop()", "pop(e, i)",
              "full.push(1)", "full[0] = 1", "insert(full, i, 1)"} | {t for t, k in RUNTIME[25:]}
